@@ -238,6 +238,13 @@ class Vocabulary(Mapping):
             raise ValidationError(
                 f"The semantic pointer {key!r} already exists", attr="", obj=self
             )
+        if len(p) != self.dimensions:
+            raise ValidationError(
+                f"The semantic pointer {key!r} must have {self.dimensions} "
+                f"dimensions (got {len(p)})",
+                attr="",
+                obj=self,
+            )
         isDifferentVocab = p.vocab is not None and p.vocab is not self
         isDifferentAlgebra = p.algebra is not self.algebra  # algebra never None
         if isDifferentVocab or isDifferentAlgebra:
